@@ -65,6 +65,21 @@ void ledger_strict(bool on);
 // a successful getaddrinfo / getnameinfo leaves errno = ENOTTY (errno is unspecified after success; the real
 // resolver does touch it): code that reads errno after formatting an address picks up garbage
 void clobber_errno(bool on);
+// raw byte capture (additive, used by C18/C15): every byte a successful send() on a captured
+// descriptor handed to the kernel is appended to that descriptor's capture buffer
+void capture(int fd, bool on);
+std::string take_capture(int fd);          // and clear
+// persistent segmentation: every recv (sys="recv") / send (sys="send") on fd is capped at k bytes (0 = off);
+// like an endless supply of `short k` directives, without consuming the script
+void cap(std::string const &sys, int fd, long k);
+// total byte budget for send() on fd: sends are cut down to what is left; with nothing left they fail
+// with EAGAIN (a full send buffer).  n < 0 = no budget (default)
+void budget(int fd, long n);
+// append a line of the caller's own to the call log (keeps one total order with the OS calls)
+void log_note(std::string const &line);
+// how long (ms, real time) an unlimited poll under virtual time waits for another thread before
+// declaring a hang (default 3000)
+void hang_wait_ms(int ms);
 
 // statistics
 long count(std::string const &sys);
